@@ -1,5 +1,6 @@
 import Ebv.Lemmas.VerifRegs
 import Ebv.Lemmas.VerifStruct
+import Ebv.Lemmas.VerifGen
 /-! # C05 — every program the generator accepts loads into the kernel  (PARTIAL)
 
 The oracle of the property is the Linux verifier; no Lean model can be proved equal to it.  What is proved here is
@@ -11,7 +12,7 @@ about `MiniV.accepts` (`Ebv/Model/MiniVerifier.lean`), a model of the verifier r
   addresses arbitrary) from a state whose written set contains r1 and r10, every register an instruction reads has been
   written (r1–r5 are un-written by a call, r0 is written by it);
 * `exit_has_r0`, `accepted_pc_in_range` — corollaries: EXIT always finds a written r0; execution never leaves the
-  program text or enters a second slot;
+  program text;
 * `step_frame` (in `Ebv/Lemmas/VerifRegs.lean`) ties `MiniV.defs` to `Ebpf.step`: registers outside `defs i` keep their value.
 
 The link to the generator (`owners_sound`) is in `Ebv/Lemmas/VerifGen.lean`.  `MiniV.accepts P = true` for the library's own
@@ -107,7 +108,7 @@ theorem exit_has_r0 {cfg : Config} {prog : List Insn} {geo : MapGeometry} (h : a
     unfold isExit at hx; unfold isCall; simp only [Bool.and_eq_true, beq_iff_eq] at hx; simp [hx.2]
   simp [reads, ha, hj, hc, hx]
 
-/-- execution of an accepted program stays on first-slot instructions inside the program text -/
+/-- execution of an accepted program stays inside the program text -/
 theorem accepted_pc_in_range {cfg : Config} {prog : List Insn} {geo : MapGeometry} (h : acceptsWith cfg prog geo = true)
     {c0 c : Conf} (hpc : c0.σ.pc = 0) (h1 : c0.w 1 = true) (h10 : c0.w 10 = true) (hr : Reach prog c0 c) :
     c.σ.pc < prog.length := by
@@ -119,5 +120,52 @@ theorem accepted_pc_in_range {cfg : Config} {prog : List Insn} {geo : MapGeometr
   rcases Nat.lt_or_ge c.σ.pc prog.length with hlt | hge
   · exact hlt
   · rw [List.getElem?_eq_none_iff.mpr (by omega)] at hta; cases hta
+
+/-! ## the link to the generator
+
+`owners_sound`, `calc_covered`, `owners_check_insufficient` are proved in `Ebv/Lemmas/VerifGen.lean` (same namespace).
+The full claim of DESIGN §4 C05 — "`emitProg p = ok code` implies `accepts (prologue ++ code ++ [r0 := c, EXIT])`" — also
+needs the kind-level rules (2)–(4), (6) for the emitted code (that `r10 + off` stays inside the written frame, that r7 is a
+null-checked map value whose offsets stay inside `value_size`); it is stated here and NOT proved: the tie for it is the
+regenerated obligation `accepts P = true` on every generated program, evaluated by the driver on every run. -/
+def EmitAccepts : Prop :=
+  ∀ (p : Gen.Prog) (code : List Insn) (geo : MapGeometry) (prologue : List Insn),
+    Gen.emitProg p = .ok code → stmtsLeaves (Gen.layout p.vars) p.owned p.stmts →
+    accepts prologue geo = true →            -- the code of `ArrayMap.init` followed by `r0 = 0; EXIT`
+    accepts (prologue.dropLast.dropLast ++ code ++ [⟨0xb7, 0, 0, 0, 2⟩, ⟨0x95, 0, 0, 0, 0⟩]) geo = true
+
+/-! ## non-vacuity -/
+
+/-- `ArrayMap.init` as the generator emits it, a store through the null-checked map value, `r0 = 2; exit` -/
+def demo : List Insn :=
+  [⟨191, 6, 1, 0, 0⟩, ⟨98, 10, 0, -4, 0⟩, ⟨24, 1, 1, 0, 40⟩, ⟨0, 0, 0, 0, 0⟩, ⟨191, 2, 10, 0, 0⟩, ⟨7, 2, 0, 0, -4⟩,
+   ⟨133, 0, 0, 0, 1⟩, ⟨85, 0, 0, 1, 0⟩, ⟨149, 0, 0, 0, 0⟩, ⟨191, 1, 6, 0, 0⟩, ⟨191, 7, 0, 0, 0⟩, ⟨122, 7, 0, 8, 5⟩,
+   ⟨183, 0, 0, 0, 2⟩, ⟨149, 0, 0, 0, 0⟩]
+def demoGeo : MapGeometry := [(40, ⟨.array, 4, 16⟩)]
+
+example : accepts demo demoGeo = true := by decide +kernel
+/-- one byte past the map value: rule (3) -/
+example : accepts (demo.set 11 ⟨122, 7, 0, 9, 5⟩) demoGeo = false := by decide +kernel
+/-- without the null check: rule (3) -/
+example : accepts (demo.set 7 ⟨183, 5, 0, 0, 0⟩) demoGeo = false := by decide +kernel
+/-- reading r3, which nothing wrote: rule (1) -/
+example : accepts (demo.set 9 ⟨191, 1, 3, 0, 0⟩) demoGeo = false := by decide +kernel
+/-- r1 after the call is dead: rule (1) -/
+example : accepts (demo.set 9 ⟨191, 8, 1, 0, 0⟩) demoGeo = false := by decide +kernel
+/-- the key bytes must be written before the helper reads them (unprivileged reading of rule 2) -/
+example : accepts (demo.set 1 ⟨98, 10, 0, -8, 0⟩) demoGeo = false ∧
+    acceptsWith { allowUninitStack := true } (demo.set 1 ⟨98, 10, 0, -8, 0⟩) demoGeo = true := by decide +kernel
+/-- a 32-bit shift by 63 (what `db = vq >> 63` becomes): rule (7) -/
+example : accepts [⟨183, 0, 0, 0, 2⟩, ⟨0xc4, 0, 0, 0, 63⟩, ⟨149, 0, 0, 0, 0⟩] [] = false := by decide +kernel
+/-- a jump into the second slot of LD_IMM64: rule (5) -/
+example : accepts [⟨5, 0, 0, 1, 0⟩, ⟨24, 0, 0, 0, 1⟩, ⟨0, 0, 0, 0, 0⟩, ⟨149, 0, 0, 0, 0⟩] [] = false := by decide +kernel
+
+/-- the hypotheses of `reg_init_sound` are satisfiable, and an execution really moves: the first step of `demo` -/
+example : ∃ c0 c1 : Conf, c0.σ.pc = 0 ∧ c0.w 1 = true ∧ c0.w 10 = true ∧ Reach demo c0 c1 ∧ c1.σ.pc = 1 ∧ c1.w 6 = true := by
+  let σ0 : State := ⟨fun _ => 0, fun _ => 0, 0⟩
+  refine ⟨⟨σ0, fun r => r == 1 || r == 10⟩, _, rfl, rfl, rfl,
+    Reach.tail (Reach.refl _) (IStep.next (i := ⟨191, 6, 1, 0, 0⟩) (σ' := { (σ0.setReg 6 (σ0.regs 1)) with pc := 1 }) rfl ?_), rfl, ?_⟩
+  · simp [step, fetch, demo, σ0, alu]
+  · simp [writtenAfter, defs, kills, isAlu, isCall, cls, code]
 
 end Ebv.C05
